@@ -244,6 +244,36 @@ class AsciiMap:
 
         self._updateSlotSizeFromData()
         self._makeOffsets()
+        self._checkDrawnLinesReadBack()
+
+    def _checkDrawnLinesReadBack(self):
+        """
+        Refuse to draw a map that does not read back to the data it was drawn from.
+
+        The extent of the map is estimated from the data (see ``_updateDimensionsFromData``),
+        and sparse data (e.g. with holes on the outer rows, or with negative Cartesian
+        indices) may fall outside of the lines drawn. Such data cannot be represented by
+        this map, and silently dropping or displacing items is never acceptable.
+        """
+        expected = {}
+        for ij, label in self.asciiLabelByIndices.items():
+            label = str(label).replace(" ", "")
+            if label != PLACEHOLDER:
+                expected[tuple(ij)] = label
+
+        check = self.__class__()
+        check.readAscii(str(self))
+        drawn = {
+            tuple(ij): label for ij, label in check.items() if label != PLACEHOLDER
+        }
+        if drawn != expected:
+            missing = sorted(set(expected) - set(drawn))
+            raise ValueError(
+                "Cannot draw the given data as a {}: the map would read back "
+                "differently (items missing at {}).".format(
+                    self.__class__.__name__, missing
+                )
+            )
 
     @staticmethod
     def _removeTrailingPlaceholders(line):
